@@ -19,10 +19,10 @@ PROPERTY = 'C08'
 BOUNDS = {
     'quick': 'REAL mode: k<=2 samples with coordinates any reals in [0,1) on ortho457 with resolutions {4, 2.5, 2, 1.7} (grids up to 2x2x4); '
              'edge-length bound for 9 resolutions x 3 lattices; FP mode (binary64): voxel round trip for every grid size 1<=n<=63 and every 0<=v<n (cvc5)',
-    'thorough': 'k<=3 samples, grids up to 3x4x5 incl. triclinic lattice lengths; FP round trip for every n<=255 (cvc5), split by n ranges up to 1023',
+    'thorough': 'k<=3 samples, grids up to 3x4x5 incl. triclinic lattice lengths; FP round trip for every n<=511 (cvc5, 8 ranges of n)',
 }
 OUTSIDE = ['grids / sample counts above the bound', 'binary64 rounding of the bin edges np.linspace produces (REAL mode uses exact k/n edges)',
-           'voxel round trip for n > 1023']
+           'voxel round trip for n > 511 (cvc5 needs > 10 min per 256-wide range beyond)']
 ASSUMPTIONS = [
     'positions handed to trajectory_to_volume lie in [0,1) (C01)',
     'np.linspace(0,1,n) edges read as the exact rationals k/(n-1)',
@@ -89,6 +89,14 @@ def density_job_replay(params, inputs):
     if tuple(vol.data.shape) != tuple(n):
         return False, f'grid {vol.data.shape} != floor(L/res) {n}'
     exp = np.zeros(n, dtype=int)
+    for s in range(k):
+        for c in range(3):
+            v = inputs[f'x_{s}_{c}']
+            xf = F(v) if not isinstance(v, float) else F(repr(v))
+            if (xf * n[c]).denominator == 1 and F(float(xf)) != xf:
+                # the sample sits exactly on a voxel face that binary64 cannot represent: the float run is decided by
+                # rounding of the sample and of the bin edge (stated outside the claim)
+                return True, 'sample on a voxel face not representable in binary64: outside the claim'
     for s in range(k):
         # exact floor(x * n) with rationals (the solver's model values are short binary fractions)
         idx = tuple(int(F(inputs[f'x_{s}_{c}']) * n[c]) if not isinstance(inputs[f'x_{s}_{c}'], float)
@@ -170,7 +178,7 @@ def jobs(tier, seed):
         rt = [(1, 63)]
     else:
         dj = [(k, 'ortho457', r) for k in (1, 2, 3) for r in (4.0, 2.5, 2.0, 1.7)] + [(2, 'tric', 2.5), (2, 'hex558', 2.4), (3, 'ortho457', 1.3)]
-        rt = [(1, 63), (64, 127), (128, 191), (192, 255), (256, 383), (384, 511), (512, 767), (768, 1023)]
+        rt = [(1, 63), (64, 127), (128, 191), (192, 255), (256, 319), (320, 383), (384, 447), (448, 511)]
     for k, lat, r in dj:
         js.append(dict(name=f'density_k{k}_{lat}_res{r}', fn='density_job', params=dict(k=k, lattice=lat, resolution=r)))
     js.append(dict(name='voxel_edges', fn='edges_job',
